@@ -147,7 +147,7 @@ func (s *lsession) exec(op string) string {
 			s.fail("C04 delay(%d) returned after %v, earlier than Interval - duration = %v", d, elapsed, s.interval-time.Duration(d))
 			return "early"
 		}
-		if time.Duration(d) >= s.interval && elapsed > 50*time.Millisecond {
+		if time.Duration(d) >= s.interval && elapsed > 50*time.Millisecond && elapsed > s.interval/4 {
 			s.fail("C12 delay(%d) with duration >= Interval slept %v", d, elapsed)
 		}
 		return "ok"
@@ -213,6 +213,12 @@ func main() {
 			q = uint64(20 + r.Intn(80))
 		}
 		interval := time.Duration(200+r.Intn(1800)) * time.Microsecond
+		long := i%10 == 0
+		if long {
+			// a long interval: only "the transfer took at least Interval" probes are made, which
+			// must not sleep at all
+			interval = 400 * time.Millisecond
+		}
 		s, rep := newLSession(w, q, interval, 4096)
 		cls := "limit"
 		w.Case(cls, true, s.script[0], rep)
@@ -240,6 +246,9 @@ func main() {
 				if strings.HasPrefix(rep, "stop=0") && r.Intn(3) == 0 {
 					// transfer took d: the discipline sleeps Interval - d
 					d := []int64{0, int64(interval) / 2, int64(interval), 2 * int64(interval)}[r.Intn(4)]
+					if long {
+						d = []int64{int64(interval), int64(interval) + 1, 2 * int64(interval), 3*int64(interval) + 7}[r.Intn(4)]
+					}
 					do(fmt.Sprintf("delay %d", d))
 				}
 			}
